@@ -4,7 +4,8 @@ from __future__ import annotations
 import simplify
 
 ID = "C02"
-THEOREMS = ["select_identity_sem", "makeSelect_sem", "makeArgsUnique_counter", "freshNames_mem", "lambdaIsIdentity_sound",
+THEOREMS = ["simplifyCk_preserves", "simplifyCk_refines", "simpCk_sound", "sem_called_lambda", "rename_le_both",
+            "select_identity_sem", "makeSelect_sem", "makeArgsUnique_counter", "freshNames_mem", "lambdaIsIdentity_sound",
             "rule_select_select", "rule_selectMany_select", "rule_where_select", "rule_where_where", "rule_select_selectMany",
             "rule_where_selectMany", "rule_selectMany_selectMany", "rule_first_attr", "rule_first_sub", "rule_tuple_index", "rule_list_index",
             "denLz_coincide", "denLz_mono", "denLz_wf", "denLz_noPoison", "sel_sel", "whr_whr", "whr_sel", "many_sel", "sel_many", "whr_many", "many_many", "first_sel"]
